@@ -64,7 +64,10 @@ func instantiate(s Scenario, r *rand.Rand, tok0 int) (b *Built, err error) {
 	}
 	b.Defaults = defaults
 	if s.Mode != "convert" && s.Mode != "convcall" {
+		// a target with defaults is now and then constructed through NewFuncList
+		env.ViaList = s.Target.Form != "built" && len(defaults) > 0 && r.Intn(4) == 0
 		b.Target, err = env.Build(0, s.Target, defaults...)
+		env.ViaList = false
 		if err != nil {
 			return b, fmt.Errorf("newfunc target: %w", err)
 		}
